@@ -101,3 +101,7 @@ sexp kit_flonum(double d) {
 }
 sexp kit_any_flonum(void) { return kit_flonum(nondet_double()); }
 sexp kit_type_obj_ptr(int i) { return (sexp) &kit_types[i]; }
+/* exported entry points for static functions of sexp.c that have their own harness */
+#if SEXP_USE_UTF8_STRINGS
+int kit_decode_utf8_char(const unsigned char *s) { return sexp_decode_utf8_char(s); }
+#endif
